@@ -162,9 +162,9 @@ Section Threads.
   Qed.
 
   Lemma D_applicable : forall t m o oi si, own (OOp o) = Some t -> Forall (rd_ok t) (st_cells si) -> objs_ok t oi ->
-    Disc t (ev_applicable m o oi si).
+    mos t (ODom (o_dom oi)) -> Disc t (ev_applicable m o oi si).
   Proof.
-    intros. unfold ev_applicable. disc; auto.
+    intros t m o oi si Ho Hs Hp Hd. unfold ev_applicable. disc; auto; try exact Hd.
     - apply D_objs_reads; auto.
     - apply region_wr; auto.
   Qed.
@@ -295,11 +295,13 @@ Section Threads.
       disc; auto. apply D_applicable; auto.
       + apply state_reads; auto.
       + unfold objs_ok. rewrite R2. exact Hp.
+      + rewrite R1. exact Hd.
     - destruct W as (Wo & Wn & Ws & Wns). destruct (HO o t Wo Wn) as [Hd Hp].
       destruct (ensure_grounded m o) as [[m1 oi] evg] eqn:E.
       destruct (ensure_grounded_spec t m o m1 oi evg E Wn Hd) as ((R1 & R2 & _) & Dg & _).
       pose proof (ensure_grounded_same m o m1 oi evg E) as (_ & Es & _).
       assert (Hp' : objs_ok t oi) by (unfold objs_ok; rewrite R2; exact Hp).
+      assert (Hd' : mos t (ODom (o_dom oi))) by (rewrite R1; exact Hd).
       assert (Hsrc : Forall (rd_ok t) (st_cells (nth s (sts m) dflt_s))) by (apply state_reads; auto).
       assert (Da : Disc t (if skip then [] else ev_applicable m1 o oi (nth s (sts m) dflt_s))).
       { destruct skip; disc. apply D_applicable; auto. }
